@@ -44,7 +44,8 @@ theorem dec_simple (c v : UInt8) (rest : GoStr) (h : simpleEsc c = some v)
   have e1 : (c == 120) = false := by simpa using h1
   have e2 : (c == 117) = false := by simpa using h2
   have e3 : (c == 85) = false := by simpa using h3
-  simp only [litDecode, beq_self_eq_true, if_true, e1, e2, e3, Bool.false_eq_true, if_false, h]
+  rw [litDecode.eq_def]
+  simp only [beq_self_eq_true, if_true, e1, e2, e3, Bool.false_eq_true, if_false, h]
   cases litDecode rest <;> rfl
 
 theorem dec_x (n : Nat) (h : n < 256) (rest : GoStr) :
@@ -53,7 +54,9 @@ theorem dec_x (n : Nat) (h : n < 256) (rest : GoStr) :
   have hv := hexvs_hex2 n 0
   rw [hab] at hv ⊢
   have : n % 256 = n := Nat.mod_eq_of_lt h
-  simp only [List.cons_append, List.nil_append, litDecode, beq_self_eq_true, if_true, hv, Nat.zero_mul, Nat.zero_add, this]
+  simp only [List.cons_append, List.nil_append]
+  rw [litDecode.eq_def]
+  simp only [beq_self_eq_true, if_true, hv, Nat.zero_mul, Nat.zero_add, this]
   cases litDecode rest <;> rfl
 
 theorem dec_u (n : Nat) (h : n < 65536) (hv : validRune n = true) (rest : GoStr) :
@@ -62,8 +65,10 @@ theorem dec_u (n : Nat) (h : n < 65536) (hv : validRune n = true) (rest : GoStr)
   have hx := hexvs_hex4 n h
   rw [hab] at hx ⊢
   have e1 : ((117 : UInt8) == 120) = false := by decide
-  simp only [List.cons_append, List.nil_append, litDecode, beq_self_eq_true, if_true, e1, Bool.false_eq_true, if_false, hx, hv]
-  cases litDecode rest <;> rfl
+  simp only [List.cons_append, List.nil_append]
+  rw [litDecode.eq_def]
+  simp only [beq_self_eq_true, if_true, e1, Bool.false_eq_true, if_false, hx]
+  cases litDecode rest <;> simp [hv]
 
 theorem dec_U (n : Nat) (h : n < 4294967296) (hv : validRune n = true) (rest : GoStr) :
     litDecode ([92, 85] ++ hex8 n ++ rest) = (litDecode rest).map (encodeRune n ++ ·) := by
@@ -72,20 +77,23 @@ theorem dec_U (n : Nat) (h : n < 4294967296) (hv : validRune n = true) (rest : G
   rw [hab] at hx ⊢
   have e1 : ((85 : UInt8) == 120) = false := by decide
   have e2 : ((85 : UInt8) == 117) = false := by decide
-  simp only [List.cons_append, List.nil_append, litDecode, beq_self_eq_true, if_true, e1, e2, Bool.false_eq_true, if_false, hx, hv]
-  cases litDecode rest <;> rfl
+  simp only [List.cons_append, List.nil_append]
+  rw [litDecode.eq_def]
+  simp only [beq_self_eq_true, if_true, e1, e2, Bool.false_eq_true, if_false, hx]
+  cases litDecode rest <;> simp [hv]
 
 /-- bytes that are neither `\`, `"` nor a line feed stand for themselves -/
 theorem dec_raw (l rest : GoStr) (h : ∀ b ∈ l, b ≠ 92 ∧ b ≠ 34 ∧ b ≠ 10) :
     litDecode (l ++ rest) = (litDecode rest).map (l ++ ·) := by
   induction l with
-  | nil => cases litDecode rest <;> rfl
+  | nil => cases h : litDecode rest <;> simp [h]
   | cons b l ih =>
     obtain ⟨h1, h2, h3⟩ := h b List.mem_cons_self
     have e1 : (b == 92) = false := by simpa using h1
     have e2 : (b == 34) = false := by simpa using h2
     have e3 : (b == 10) = false := by simpa using h3
-    simp only [List.cons_append, litDecode, e1, e2, e3, Bool.false_eq_true, if_false, Bool.or_self]
+    rw [List.cons_append, litDecode.eq_def]
+    simp only [e1, e2, e3, Bool.false_eq_true, if_false, Bool.or_self]
     rw [ih (fun x hx => h x (List.mem_cons_of_mem _ hx))]
     cases litDecode rest <;> rfl
 
@@ -116,7 +124,7 @@ theorem enc2 (b0 b1 : UInt8) (h0 : 0xC2 ≤ b0.toNat ∧ b0.toNat ≤ 0xDF) (h1 
 
 /-- three-byte sequences (the second byte is restricted so that neither over-long forms nor surrogates occur) -/
 theorem enc3 (b0 b1 b2 : UInt8) (h0 : 0xE0 ≤ b0.toNat ∧ b0.toNat ≤ 0xEF)
-    (h1 : (if b0.toNat = 0xE0 then 0xA0 else 0x80) ≤ b1.toNat ∧ b1.toNat ≤ (if b0.toNat = 0xED then 0x9F else 0xBF))
+    (hb1r : 0x80 ≤ b1.toNat ∧ b1.toNat ≤ 0xBF) (hA : b0.toNat = 0xE0 → 0xA0 ≤ b1.toNat) (hD : b0.toNat = 0xED → b1.toNat ≤ 0x9F)
     (h2 : 0x80 ≤ b2.toNat ∧ b2.toNat ≤ 0xBF) :
     encodeRune (b0.toNat % 16 * 4096 + b1.toNat % 64 * 64 + b2.toNat % 64) = [b0, b1, b2] ∧
     validRune (b0.toNat % 16 * 4096 + b1.toNat % 64 * 64 + b2.toNat % 64) = true ∧
@@ -124,16 +132,14 @@ theorem enc3 (b0 b1 b2 : UInt8) (h0 : 0xE0 ≤ b0.toNat ∧ b0.toNat ≤ 0xEF)
     b0.toNat % 16 * 4096 + b1.toNat % 64 * 64 + b2.toNat % 64 < 65536 := by
   have hb0 := b0.toNat_lt; have hb1 := b1.toNat_lt; have hb2 := b2.toNat_lt
   have hlo : 2048 ≤ b0.toNat % 16 * 4096 + b1.toNat % 64 * 64 + b2.toNat % 64 := by
-    split at h1 <;> omega
+    by_cases c : b0.toNat = 0xE0
+    · have := hA c; omega
+    · omega
   have hsur : ¬ (55296 ≤ b0.toNat % 16 * 4096 + b1.toNat % 64 * 64 + b2.toNat % 64 ∧
       b0.toNat % 16 * 4096 + b1.toNat % 64 * 64 + b2.toNat % 64 < 57344) := by
-    obtain ⟨h1a, h1b⟩ := h1
-    split at h1b <;> omega
-  have hb1r : 128 ≤ b1.toNat ∧ b1.toNat ≤ 191 := by
-    obtain ⟨h1a, h1b⟩ := h1
-    constructor
-    · split at h1a <;> omega
-    · split at h1b <;> omega
+    by_cases c : b0.toNat = 0xED
+    · have := hD c; omega
+    · omega
   have c1 : ¬ (b0.toNat % 16 * 4096 + b1.toNat % 64 * 64 + b2.toNat % 64 < 128) := by omega
   have c2 : ¬ (b0.toNat % 16 * 4096 + b1.toNat % 64 * 64 + b2.toNat % 64 < 2048) := by omega
   have c3 : b0.toNat % 16 * 4096 + b1.toNat % 64 * 64 + b2.toNat % 64 < 65536 := by omega
@@ -147,24 +153,21 @@ theorem enc3 (b0 b1 b2 : UInt8) (h0 : 0xE0 ≤ b0.toNat ∧ b0.toNat ≤ 0xEF)
 
 /-- four-byte sequences -/
 theorem enc4 (b0 b1 b2 b3 : UInt8) (h0 : 0xF0 ≤ b0.toNat ∧ b0.toNat ≤ 0xF4)
-    (h1 : (if b0.toNat = 0xF0 then 0x90 else 0x80) ≤ b1.toNat ∧ b1.toNat ≤ (if b0.toNat = 0xF4 then 0x8F else 0xBF))
+    (hb1r : 0x80 ≤ b1.toNat ∧ b1.toNat ≤ 0xBF) (hA : b0.toNat = 0xF0 → 0x90 ≤ b1.toNat) (hD : b0.toNat = 0xF4 → b1.toNat ≤ 0x8F)
     (h2 : 0x80 ≤ b2.toNat ∧ b2.toNat ≤ 0xBF) (h3 : 0x80 ≤ b3.toNat ∧ b3.toNat ≤ 0xBF) :
     encodeRune (b0.toNat % 8 * 262144 + b1.toNat % 64 * 4096 + b2.toNat % 64 * 64 + b3.toNat % 64) = [b0, b1, b2, b3] ∧
     validRune (b0.toNat % 8 * 262144 + b1.toNat % 64 * 4096 + b2.toNat % 64 * 64 + b3.toNat % 64) = true ∧
     65536 ≤ b0.toNat % 8 * 262144 + b1.toNat % 64 * 4096 + b2.toNat % 64 * 64 + b3.toNat % 64 ∧
     b0.toNat % 8 * 262144 + b1.toNat % 64 * 4096 + b2.toNat % 64 * 64 + b3.toNat % 64 < 1114112 := by
   have hb0 := b0.toNat_lt; have hb1 := b1.toNat_lt; have hb2 := b2.toNat_lt; have hb3 := b3.toNat_lt
-  have hb1r : 128 ≤ b1.toNat ∧ b1.toNat ≤ 191 := by
-    obtain ⟨h1a, h1b⟩ := h1
-    constructor
-    · split at h1a <;> omega
-    · split at h1b <;> omega
   have hlo : 65536 ≤ b0.toNat % 8 * 262144 + b1.toNat % 64 * 4096 + b2.toNat % 64 * 64 + b3.toNat % 64 := by
-    obtain ⟨h1a, _⟩ := h1
-    split at h1a <;> omega
+    by_cases c : b0.toNat = 0xF0
+    · have := hA c; omega
+    · omega
   have hhi : b0.toNat % 8 * 262144 + b1.toNat % 64 * 4096 + b2.toNat % 64 * 64 + b3.toNat % 64 < 1114112 := by
-    obtain ⟨_, h1b⟩ := h1
-    split at h1b <;> omega
+    by_cases c : b0.toNat = 0xF4
+    · have := hD c; omega
+    · omega
   have c1 : ¬ (b0.toNat % 8 * 262144 + b1.toNat % 64 * 4096 + b2.toNat % 64 * 64 + b3.toNat % 64 < 128) := by omega
   have c2 : ¬ (b0.toNat % 8 * 262144 + b1.toNat % 64 * 4096 + b2.toNat % 64 * 64 + b3.toNat % 64 < 2048) := by omega
   have c3 : ¬ (b0.toNat % 8 * 262144 + b1.toNat % 64 * 4096 + b2.toNat % 64 * 64 + b3.toNat % 64 < 65536) := by omega
@@ -210,6 +213,104 @@ end GL
 
 namespace GL
 
+/-- three-byte case of `decode1`, with the bounds of the second byte abstracted -/
+theorem dec3 (b0 b1 b2 lo hi : UInt8) (r2 : GoStr) (r : Rune) (t : GoStr)
+    (hr : 0xE0 ≤ b0.toNat ∧ b0.toNat ≤ 0xEF)
+    (hlo : lo = if b0 = 0xE0 then 0xA0 else 0x80) (hhi : hi = if b0 = 0xED then 0x9F else 0xBF)
+    (h : (if (decide (lo ≤ b1) && decide (b1 ≤ hi) && isCont b2) = true then
+            some (({ cp := b0.toNat % 16 * 4096 + b1.toNat % 64 * 64 + b2.toNat % 64, width := 3, enc := [b0, b1, b2] } : Rune), r2)
+          else some (runeError, b1 :: b2 :: r2)) = some (r, t)) :
+    DecInvalid (b0 :: b1 :: b2 :: r2) r t ∨ DecValid (b0 :: b1 :: b2 :: r2) r t := by
+  split at h
+  · rename_i hc
+    simp only [Bool.and_eq_true, decide_eq_true_eq, UInt8.le_iff_toNat_le] at hc
+    obtain ⟨⟨h1, h2⟩, hc2⟩ := hc
+    simp only [Option.some.injEq, Prod.mk.injEq] at h
+    obtain ⟨rfl, rfl⟩ := h
+    have e1 : (b0 = 0xE0) ↔ b0.toNat = 0xE0 := u8_eq_iff b0 0xE0 (by decide)
+    have e2 : (b0 = 0xED) ↔ b0.toNat = 0xED := u8_eq_iff b0 0xED (by decide)
+    have hlo' : lo.toNat = if b0.toNat = 0xE0 then 0xA0 else 0x80 := by
+      rw [hlo, ite_toNat]
+      by_cases c : b0 = 0xE0
+      · rw [if_pos c, if_pos (e1.1 c)]; rfl
+      · rw [if_neg c, if_neg (fun x => c (e1.2 x))]; rfl
+    have hhi' : hi.toNat = if b0.toNat = 0xED then 0x9F else 0xBF := by
+      rw [hhi, ite_toNat]
+      by_cases c : b0 = 0xED
+      · rw [if_pos c, if_pos (e2.1 c)]; rfl
+      · rw [if_neg c, if_neg (fun x => c (e2.2 x))]; rfl
+    have hb1 : 0x80 ≤ b1.toNat ∧ b1.toNat ≤ 0xBF := by
+      constructor
+      · rw [hlo'] at h1; split at h1 <;> omega
+      · rw [hhi'] at h2; split at h2 <;> omega
+    have hA : b0.toNat = 0xE0 → 0xA0 ≤ b1.toNat := by
+      intro c; rw [hlo', if_pos c] at h1; exact h1
+    have hD : b0.toNat = 0xED → b1.toNat ≤ 0x9F := by
+      intro c; rw [hhi', if_pos c] at h2; exact h2
+    obtain ⟨he, hv, hge, _⟩ := enc3 b0 b1 b2 hr hb1 hA hD ((cont_iff b2).1 hc2)
+    right
+    refine ⟨rfl, he, hv, by simp, ?_, ?_⟩
+    · intro ⟨hw, _⟩; simp only at hw; omega
+    · intro _ b hb
+      simp only [List.mem_cons, List.not_mem_nil, or_false] at hb
+      rcases hb with rfl | rfl | rfl
+      · omega
+      · exact hb1.1
+      · exact ((cont_iff _).1 hc2).1
+  · simp only [Option.some.injEq, Prod.mk.injEq] at h
+    obtain ⟨rfl, rfl⟩ := h
+    exact Or.inl (runeError_invalid _ _)
+
+/-- four-byte case -/
+theorem dec4 (b0 b1 b2 b3 lo hi : UInt8) (r3 : GoStr) (r : Rune) (t : GoStr)
+    (hr : 0xF0 ≤ b0.toNat ∧ b0.toNat ≤ 0xF4)
+    (hlo : lo = if b0 = 0xF0 then 0x90 else 0x80) (hhi : hi = if b0 = 0xF4 then 0x8F else 0xBF)
+    (h : (if (decide (lo ≤ b1) && decide (b1 ≤ hi) && isCont b2 && isCont b3) = true then
+            some (({ cp := b0.toNat % 8 * 262144 + b1.toNat % 64 * 4096 + b2.toNat % 64 * 64 + b3.toNat % 64,
+                     width := 4, enc := [b0, b1, b2, b3] } : Rune), r3)
+          else some (runeError, b1 :: b2 :: b3 :: r3)) = some (r, t)) :
+    DecInvalid (b0 :: b1 :: b2 :: b3 :: r3) r t ∨ DecValid (b0 :: b1 :: b2 :: b3 :: r3) r t := by
+  split at h
+  · rename_i hc
+    simp only [Bool.and_eq_true, decide_eq_true_eq, UInt8.le_iff_toNat_le] at hc
+    obtain ⟨⟨⟨h1, h2⟩, hc2⟩, hc3⟩ := hc
+    simp only [Option.some.injEq, Prod.mk.injEq] at h
+    obtain ⟨rfl, rfl⟩ := h
+    have e1 : (b0 = 0xF0) ↔ b0.toNat = 0xF0 := u8_eq_iff b0 0xF0 (by decide)
+    have e2 : (b0 = 0xF4) ↔ b0.toNat = 0xF4 := u8_eq_iff b0 0xF4 (by decide)
+    have hlo' : lo.toNat = if b0.toNat = 0xF0 then 0x90 else 0x80 := by
+      rw [hlo, ite_toNat]
+      by_cases c : b0 = 0xF0
+      · rw [if_pos c, if_pos (e1.1 c)]; rfl
+      · rw [if_neg c, if_neg (fun x => c (e1.2 x))]; rfl
+    have hhi' : hi.toNat = if b0.toNat = 0xF4 then 0x8F else 0xBF := by
+      rw [hhi, ite_toNat]
+      by_cases c : b0 = 0xF4
+      · rw [if_pos c, if_pos (e2.1 c)]; rfl
+      · rw [if_neg c, if_neg (fun x => c (e2.2 x))]; rfl
+    have hb1 : 0x80 ≤ b1.toNat ∧ b1.toNat ≤ 0xBF := by
+      constructor
+      · rw [hlo'] at h1; split at h1 <;> omega
+      · rw [hhi'] at h2; split at h2 <;> omega
+    have hA : b0.toNat = 0xF0 → 0x90 ≤ b1.toNat := by
+      intro c; rw [hlo', if_pos c] at h1; exact h1
+    have hD : b0.toNat = 0xF4 → b1.toNat ≤ 0x8F := by
+      intro c; rw [hhi', if_pos c] at h2; exact h2
+    obtain ⟨he, hv, hge, _⟩ := enc4 b0 b1 b2 b3 hr hb1 hA hD ((cont_iff b2).1 hc2) ((cont_iff b3).1 hc3)
+    right
+    refine ⟨rfl, he, hv, by simp, ?_, ?_⟩
+    · intro ⟨hw, _⟩; simp only at hw; omega
+    · intro _ b hb
+      simp only [List.mem_cons, List.not_mem_nil, or_false] at hb
+      rcases hb with rfl | rfl | rfl | rfl
+      · omega
+      · exact hb1.1
+      · exact ((cont_iff _).1 hc2).1
+      · exact ((cont_iff _).1 hc3).1
+  · simp only [Option.some.injEq, Prod.mk.injEq] at h
+    obtain ⟨rfl, rfl⟩ := h
+    exact Or.inl (runeError_invalid _ _)
+
 theorem decode1_spec (s : GoStr) (r : Rune) (t : GoStr) (h : decode1 s = some (r, t)) :
     DecInvalid s r t ∨ DecValid s r t := by
   cases s with
@@ -246,7 +347,7 @@ theorem decode1_spec (s : GoStr) (r : Rune) (t : GoStr) (h : decode1 s = some (r
             obtain ⟨he, hv, hge⟩ := enc2 b0 b1 hr' ((cont_iff b1).1 hc)
             right
             refine ⟨rfl, he, hv, by simp, ?_, ?_⟩
-            · intro ⟨hw, _⟩; simp at hw
+            · intro ⟨hw, _⟩; simp only at hw; omega
             · intro _ b hb
               simp only [List.mem_cons, List.not_mem_nil, or_false] at hb
               rcases hb with rfl | rfl
@@ -263,88 +364,193 @@ theorem decode1_spec (s : GoStr) (r : Rune) (t : GoStr) (h : decode1 s = some (r
           rename_i hr
           simp only [Bool.and_eq_true, decide_eq_true_eq, UInt8.le_iff_toNat_le] at hr
           have hr' : 0xE0 ≤ b0.toNat ∧ b0.toNat ≤ 0xEF := hr
-          split at h
-          · rename_i b1 b2 r2
-            split at h
-            · rename_i hc
-              simp only [Bool.and_eq_true, decide_eq_true_eq, UInt8.le_iff_toNat_le, ite_toNat] at hc
-              obtain ⟨⟨hlo, hhi⟩, hc2⟩ := hc
-              simp only [Option.some.injEq, Prod.mk.injEq] at h
-              obtain ⟨rfl, rfl⟩ := h
-              have e1 : (b0 = 0xE0) ↔ b0.toNat = 0xE0 := u8_eq_iff b0 0xE0 (by decide)
-              have e2 : (b0 = 0xED) ↔ b0.toNat = 0xED := u8_eq_iff b0 0xED (by decide)
-              have h1 : (if b0.toNat = 0xE0 then 0xA0 else 0x80) ≤ b1.toNat ∧ b1.toNat ≤ (if b0.toNat = 0xED then 0x9F else 0xBF) := by
-                constructor
-                · by_cases c : b0 = 0xE0
-                  · simp only [c, if_true] at hlo; rw [if_pos (e1.1 c)]; exact hlo
-                  · simp only [c, if_false] at hlo; rw [if_neg (fun x => c (e1.2 x))]; exact hlo
-                · by_cases c : b0 = 0xED
-                  · simp only [c, if_true] at hhi; rw [if_pos (e2.1 c)]; exact hhi
-                  · simp only [c, if_false] at hhi; rw [if_neg (fun x => c (e2.2 x))]; exact hhi
-              obtain ⟨he, hv, hge, _⟩ := enc3 b0 b1 b2 hr' h1 ((cont_iff b2).1 hc2)
-              right
-              refine ⟨rfl, he, hv, by simp, ?_, ?_⟩
-              · intro ⟨hw, _⟩; simp at hw
-              · intro _ b hb
-                simp only [List.mem_cons, List.not_mem_nil, or_false] at hb
-                have hb1 : 128 ≤ b1.toNat := by
-                  obtain ⟨h1a, _⟩ := h1
-                  split at h1a <;> omega
-                rcases hb with rfl | rfl | rfl
-                · omega
-                · exact hb1
-                · exact ((cont_iff _).1 hc2).1
-            · simp only [Option.some.injEq, Prod.mk.injEq] at h
-              obtain ⟨rfl, rfl⟩ := h
-              exact Or.inl (runeError_invalid _ _)
-          · simp only [Option.some.injEq, Prod.mk.injEq] at h
+          cases rest with
+          | nil =>
+            simp only [Option.some.injEq, Prod.mk.injEq] at h
             obtain ⟨rfl, rfl⟩ := h
             exact Or.inl (runeError_invalid _ _)
+          | cons b1 rest1 =>
+            cases rest1 with
+            | nil =>
+              simp only [Option.some.injEq, Prod.mk.injEq] at h
+              obtain ⟨rfl, rfl⟩ := h
+              exact Or.inl (runeError_invalid _ _)
+            | cons b2 r2 => exact dec3 b0 b1 b2 _ _ r2 r t hr' rfl rfl h
         · split at h
           · -- four bytes
             rename_i hr
             simp only [Bool.and_eq_true, decide_eq_true_eq, UInt8.le_iff_toNat_le] at hr
             have hr' : 0xF0 ≤ b0.toNat ∧ b0.toNat ≤ 0xF4 := hr
-            split at h
-            · rename_i b1 b2 b3 r3
-              split at h
-              · rename_i hc
-                simp only [Bool.and_eq_true, decide_eq_true_eq, UInt8.le_iff_toNat_le, ite_toNat] at hc
-                obtain ⟨⟨⟨hlo, hhi⟩, hc2⟩, hc3⟩ := hc
-                simp only [Option.some.injEq, Prod.mk.injEq] at h
-                obtain ⟨rfl, rfl⟩ := h
-                have e1 : (b0 = 0xF0) ↔ b0.toNat = 0xF0 := u8_eq_iff b0 0xF0 (by decide)
-                have e2 : (b0 = 0xF4) ↔ b0.toNat = 0xF4 := u8_eq_iff b0 0xF4 (by decide)
-                have h1 : (if b0.toNat = 0xF0 then 0x90 else 0x80) ≤ b1.toNat ∧ b1.toNat ≤ (if b0.toNat = 0xF4 then 0x8F else 0xBF) := by
-                  constructor
-                  · by_cases c : b0 = 0xF0
-                    · simp only [c, if_true] at hlo; rw [if_pos (e1.1 c)]; exact hlo
-                    · simp only [c, if_false] at hlo; rw [if_neg (fun x => c (e1.2 x))]; exact hlo
-                  · by_cases c : b0 = 0xF4
-                    · simp only [c, if_true] at hhi; rw [if_pos (e2.1 c)]; exact hhi
-                    · simp only [c, if_false] at hhi; rw [if_neg (fun x => c (e2.2 x))]; exact hhi
-                obtain ⟨he, hv, hge, _⟩ := enc4 b0 b1 b2 b3 hr' h1 ((cont_iff b2).1 hc2) ((cont_iff b3).1 hc3)
-                right
-                refine ⟨rfl, he, hv, by simp, ?_, ?_⟩
-                · intro ⟨hw, _⟩; simp at hw
-                · intro _ b hb
-                  simp only [List.mem_cons, List.not_mem_nil, or_false] at hb
-                  have hb1 : 128 ≤ b1.toNat := by
-                    obtain ⟨h1a, _⟩ := h1
-                    split at h1a <;> omega
-                  rcases hb with rfl | rfl | rfl | rfl
-                  · omega
-                  · exact hb1
-                  · exact ((cont_iff _).1 hc2).1
-                  · exact ((cont_iff _).1 hc3).1
-              · simp only [Option.some.injEq, Prod.mk.injEq] at h
-                obtain ⟨rfl, rfl⟩ := h
-                exact Or.inl (runeError_invalid _ _)
-            · simp only [Option.some.injEq, Prod.mk.injEq] at h
+            cases rest with
+            | nil =>
+              simp only [Option.some.injEq, Prod.mk.injEq] at h
               obtain ⟨rfl, rfl⟩ := h
               exact Or.inl (runeError_invalid _ _)
+            | cons b1 rest1 =>
+              cases rest1 with
+              | nil =>
+                simp only [Option.some.injEq, Prod.mk.injEq] at h
+                obtain ⟨rfl, rfl⟩ := h
+                exact Or.inl (runeError_invalid _ _)
+              | cons b2 rest2 =>
+                cases rest2 with
+                | nil =>
+                  simp only [Option.some.injEq, Prod.mk.injEq] at h
+                  obtain ⟨rfl, rfl⟩ := h
+                  exact Or.inl (runeError_invalid _ _)
+                | cons b3 r3 => exact dec4 b0 b1 b2 b3 _ _ r3 r t hr' rfl rfl h
           · simp only [Option.some.injEq, Prod.mk.injEq] at h
             obtain ⟨rfl, rfl⟩ := h
             exact Or.inl (runeError_invalid _ _)
+
+end GL
+
+namespace GL
+
+theorem decode1_cons (b0 : UInt8) (rest : GoStr) : ∃ r t, decode1 (b0 :: rest) = some (r, t) := by
+  cases h : decode1 (b0 :: rest) with
+  | some p => exact ⟨p.1, p.2, rfl⟩
+  | none =>
+    exfalso
+    simp only [decode1] at h
+    repeat' split at h
+    all_goals cases h
+
+theorem encodeRune_ascii (cp : Nat) (h : cp < 128) : encodeRune cp = [UInt8.ofNat cp] := by
+  simp [encodeRune, h]
+
+/-- the escape written for a rune decodes to the bytes the rune was read from -/
+theorem dec_escRune (isPrint : Nat → Bool) (s : GoStr) (r : Rune) (t : GoStr) (hv : DecValid s r t) (rest : GoStr) :
+    litDecode (escRune isPrint r ++ rest) = (litDecode rest).map (r.enc ++ ·) := by
+  obtain ⟨_, he, hval, _, _, hhi⟩ := hv
+  have hlt : r.cp < 1114112 := by
+    simp only [validRune, Bool.and_eq_true, decide_eq_true_eq] at hval
+    exact hval.1
+  have small : r.cp < 128 → r.enc = [UInt8.ofNat r.cp] := fun h => by rw [← he, encodeRune_ascii _ h]
+  by_cases c34 : r.cp = 34
+  · have e : escRune isPrint r = [92, 34] := by simp [escRune, c34]
+    rw [e, small (by omega), c34]
+    exact dec_simple 34 34 rest (by decide) (by decide) (by decide) (by decide)
+  have n34 : (r.cp == 34) = false := by simpa using c34
+  by_cases c92 : r.cp = 92
+  · have e : escRune isPrint r = [92, 92] := by simp [escRune, c92]
+    rw [e, small (by omega), c92]
+    exact dec_simple 92 92 rest (by decide) (by decide) (by decide) (by decide)
+  have n92 : (r.cp == 92) = false := by simpa using c92
+  by_cases hp : printable isPrint r.cp = true
+  · -- written as it is
+    have e : escRune isPrint r = r.enc := by simp [escRune, n34, n92, hp]
+    rw [e]
+    apply dec_raw
+    intro b hb
+    by_cases hs : r.cp < 128
+    · rw [small hs] at hb
+      simp only [List.mem_cons, List.not_mem_nil, or_false] at hb
+      subst hb
+      simp only [printable, hs, if_true, Bool.and_eq_true, decide_eq_true_eq] at hp
+      refine ⟨?_, ?_, ?_⟩ <;>
+        (intro e2; have := congrArg UInt8.toNat e2; simp [Nat.mod_eq_of_lt (by omega : r.cp < 256)] at this; omega)
+    · exact u8_ne_of_toNat_ge b (hhi (by omega) b hb)
+  have np : printable isPrint r.cp = false := by simpa using hp
+  by_cases c7 : r.cp = 7
+  · have e : escRune isPrint r = [92, 97] := by simp [escRune, c7, printable]
+    rw [e, small (by omega), c7]
+    exact dec_simple 97 7 rest (by decide) (by decide) (by decide) (by decide)
+  have n7 : (r.cp == 7) = false := by simpa using c7
+  by_cases c8 : r.cp = 8
+  · have e : escRune isPrint r = [92, 98] := by simp [escRune, c8, printable]
+    rw [e, small (by omega), c8]
+    exact dec_simple 98 8 rest (by decide) (by decide) (by decide) (by decide)
+  have n8 : (r.cp == 8) = false := by simpa using c8
+  by_cases c12 : r.cp = 12
+  · have e : escRune isPrint r = [92, 102] := by simp [escRune, c12, printable]
+    rw [e, small (by omega), c12]
+    exact dec_simple 102 12 rest (by decide) (by decide) (by decide) (by decide)
+  have n12 : (r.cp == 12) = false := by simpa using c12
+  by_cases c10 : r.cp = 10
+  · have e : escRune isPrint r = [92, 110] := by simp [escRune, c10, printable]
+    rw [e, small (by omega), c10]
+    exact dec_simple 110 10 rest (by decide) (by decide) (by decide) (by decide)
+  have n10 : (r.cp == 10) = false := by simpa using c10
+  by_cases c13 : r.cp = 13
+  · have e : escRune isPrint r = [92, 114] := by simp [escRune, c13, printable]
+    rw [e, small (by omega), c13]
+    exact dec_simple 114 13 rest (by decide) (by decide) (by decide) (by decide)
+  have n13 : (r.cp == 13) = false := by simpa using c13
+  by_cases c9 : r.cp = 9
+  · have e : escRune isPrint r = [92, 116] := by simp [escRune, c9, printable]
+    rw [e, small (by omega), c9]
+    exact dec_simple 116 9 rest (by decide) (by decide) (by decide) (by decide)
+  have n9 : (r.cp == 9) = false := by simpa using c9
+  by_cases c11 : r.cp = 11
+  · have e : escRune isPrint r = [92, 118] := by simp [escRune, c11, printable]
+    rw [e, small (by omega), c11]
+    exact dec_simple 118 11 rest (by decide) (by decide) (by decide) (by decide)
+  have n11 : (r.cp == 11) = false := by simpa using c11
+  by_cases cx : r.cp < 32 ∨ r.cp = 127
+  · have hcx : (decide (r.cp < 32) || r.cp == 127) = true := by simpa using cx
+    have e : escRune isPrint r = [92, 120] ++ hex2 r.cp := by
+      simp only [escRune, n34, n92, np, n7, n8, n12, n10, n13, n9, n11, hcx, Bool.false_eq_true, if_false, if_true]
+    rw [e, small (by omega)]
+    exact dec_x r.cp (by omega) rest
+  have ncx : (decide (r.cp < 32) || r.cp == 127) = false := by
+    rw [Bool.eq_false_iff]; intro hh; exact cx (by simpa using hh)
+  by_cases cu : r.cp < 65536
+  · have e : escRune isPrint r = [92, 117] ++ hex4 r.cp := by
+      simp only [escRune, n34, n92, np, n7, n8, n12, n10, n13, n9, n11, ncx, cu, Bool.false_eq_true, if_false, if_true]
+    rw [e, ← he]
+    exact dec_u r.cp cu hval rest
+  · have e : escRune isPrint r = [92, 85] ++ hex8 r.cp := by
+      simp only [escRune, n34, n92, np, n7, n8, n12, n10, n13, n9, n11, ncx, cu, Bool.false_eq_true, if_false]
+    rw [e, ← he]
+    exact dec_U r.cp (by omega) hval rest
+
+theorem quoteFuel_roundtrip (isPrint : Nat → Bool) :
+    ∀ (n : Nat) (s : GoStr), s.length ≤ n → litDecode (quoteFuel isPrint n s) = some s := by
+  intro n
+  induction n with
+  | zero =>
+    intro s hs
+    have : s = [] := List.eq_nil_of_length_eq_zero (by omega)
+    subst this
+    simp [quoteFuel, litDecode]
+  | succ n ih =>
+    intro s hs
+    cases s with
+    | nil => simp [quoteFuel, litDecode]
+    | cons b0 rest =>
+      obtain ⟨r, t, hd⟩ := decode1_cons b0 rest
+      simp only [quoteFuel, hd]
+      rcases decode1_spec _ r t hd with ⟨b0', hs', hw, hc⟩ | hv
+      · -- a byte that is not UTF-8
+        have hb : b0' = b0 ∧ t = rest := by
+          have := hs'
+          simp only [List.cons.injEq] at this
+          exact ⟨this.1.symm, this.2.symm⟩
+        obtain ⟨rfl, rfl⟩ := hb
+        simp only [hw, hc, beq_self_eq_true, Bool.and_self, if_true]
+        rw [dec_x b0'.toNat b0'.toNat_lt, ih t (by simp only [List.length_cons] at hs; omega)]
+        simp
+      · have hnot := hv.2.2.2.2.1
+        have hcond : (r.width == 1 && r.cp == 0xFFFD) = false := by
+          rw [Bool.eq_false_iff]
+          intro hh
+          simp only [Bool.and_eq_true, beq_iff_eq] at hh
+          exact hnot hh
+        simp only [hcond, Bool.false_eq_true, if_false]
+        have hs' := hv.1
+        have hne := hv.2.2.2.1
+        have hlen : t.length ≤ n := by
+          have := congrArg List.length hs'
+          simp only [List.length_cons, List.length_append] at this hs
+          have : 0 < r.enc.length := List.length_pos_iff.mpr hne
+          omega
+        rw [dec_escRune isPrint _ r t hv, ih t hlen, hs']
+        simp
+
+/-- **Go-literal round trip** — for every byte string (valid UTF-8 or not) and every printability
+predicate, the body `strconv.Quote` writes is read back by Go as exactly the original bytes. -/
+theorem quote_roundtrip (isPrint : Nat → Bool) (s : GoStr) : litDecode (quoteBodyWith isPrint s) = some s :=
+  quoteFuel_roundtrip isPrint s.length s (Nat.le_refl _)
 
 end GL
